@@ -41,6 +41,10 @@ theorem construct_err {tgt : Cls} {v : V} {e : Err} (h : construct tgt v = .erro
       · cases h
       · split at h <;> cases h; rfl
     · cases h; rfl
+  · split at h
+    · split at h <;> cases h; rfl
+    · split at h <;> cases h; rfl
+    · cases h; rfl
   · cases h; rfl
 
 theorem genType_err {cfg : Cfg} {o : Cls} {v : V} {e : Err} (h : genType cfg o v = .error e) : e = .type false := by
